@@ -506,6 +506,9 @@ func (m *Machine) Call(fn *ssa.Function, args []Value, bind []Value) Value {
 			return res
 		}
 	}
+	if res, ok := m.stdSummary(fn, args); ok {
+		return res
+	}
 	enter := fn.Blocks != nil
 	if enter && m.Hooks.Enter != nil {
 		enter = m.Hooks.Enter(fn)
